@@ -126,7 +126,7 @@ def d4(ctx, prog, base, bl, fc, fc_body):
         ctx.undecided('C08-D3', fkey, f'final condition `{norm(test)}` not evaluable: {e}', fc.where(ifs[0]))
     # initial reference
     inits = []
-    for f_ in base.methods.values():
+    for f_ in [m_ for c_ in prog.mro(base) for m_ in c_.methods.values()]:      # the record may be set up in a mixin of BaseAttack
         if f_.name == bl.name:
             continue
         for s_ in ast.walk(f_.node):
@@ -192,14 +192,17 @@ def run(ctx, prog):
                 ctx.ok('C08-D1', k, f'on every path the scores are refreshed after the last processed batch ({len(paths)} paths through run())', w)
         ctx.count('run_paths', len(paths))
     # who calls it
-    cc = prog.need_func(AB, 'BaseAttack._compute_convergence_traces')
+    cc = prog.resolve_method(base, '_compute_convergence_traces')       # along the MRO: the hooks may sit in a mixin of BaseAttack
+    if cc is None:
+        raise AnalysisError('BaseAttack._compute_convergence_traces not found')
+    hook_names = {getattr(prog.resolve_method(base, n_), 'qualname', None) for n_ in ('_batch_loop_compute', '_final_compute')} - {None}
     callers = set()
     for f in prog.funcs:
         for c in ast.walk(f.node):
             if isinstance(c, ast.Call) and isinstance(c.func, ast.Attribute) and c.func.attr == '_compute_convergence_traces':
                 callers.add(f.qualname)
-    ctx.check(callers <= {'BaseAttack._batch_loop_compute', 'BaseAttack._final_compute'}, 'C08-D1', f'{cc.key}::callers',
-              f'_compute_convergence_traces is also called from {sorted(callers - {"BaseAttack._batch_loop_compute", "BaseAttack._final_compute"})}', f'called only from {sorted(callers)}', cc.where())
+    ctx.check(callers <= hook_names, 'C08-D1', f'{cc.key}::callers',
+              f'_compute_convergence_traces is also called from {sorted(callers - hook_names)}', f'called only from {sorted(callers)}', cc.where())
     # what it appends
     ldefs0_ = astutil.local_defs(cc.node)
     apps = [c for c in ast.walk(cc.node) if isinstance(c, ast.Call) and norm(c.func).split('.')[-1] in ('append', 'concatenate', 'hstack', 'dstack')
@@ -241,7 +244,7 @@ def run(ctx, prog):
             ctx.undecided('C08-D1', f'{cc.key}::{norm(s)[:60]}', f'condition {[norm(t) for t, _ in g]} under which the convergence traces are created not understood', cc.where(s))
     # D2
     for name in ('_batch_loop_compute', '_final_compute', '_compute_convergence_traces', 'compute_results'):
-        f = base.methods.get(name)
+        f = prog.resolve_method(base, name)
         if f is None:
             raise AnalysisError(f'BaseAttack.{name} not found')
         stored = {self_attr(t) for t, s, how in kernels.stores(f.node) if self_attr(t)}
@@ -251,11 +254,11 @@ def run(ctx, prog):
         ctx.check(not bad, 'C08-D2', f'{f.key}::stores', f'the convergence path writes {sorted(bad)}: requesting convergence traces changes state the final results depend on',
                   f'writes only {sorted(stored | mut)}', f.where())
     # D3
-    fc = base.methods['_final_compute']
+    fc = prog.resolve_method(base, '_final_compute')
     body = [s for s in fc.node.body if not (isinstance(s, ast.Expr) and isinstance(s.value, ast.Constant))]
     first_ok = bool(body) and norm(body[0]).replace(' ', '') == 'super()._final_compute()'
     ctx.pattern(first_ok, 'C08-D3', f'{fc.key}::refresh first', '_final_compute does not start with super()._final_compute() (the freshness of the last column is decided by C08-D1 on the paths)', 'final results computed first', fc.where())
-    bl = base.methods['_batch_loop_compute']
+    bl = prog.resolve_method(base, '_batch_loop_compute')
     d4(ctx, prog, base, bl, fc, body)
     ctx.floor('convergence call events judged', n_calls, 4)
     ctx.floor('attack hook combinations', len(seen), 1)
